@@ -41,6 +41,14 @@ Definition mismatch (mx : Z) (c : case) : bool :=
   if commit_fails s then negb (c_fail c)      (* Commit must fail; what a failed Commit leaves behind is not compared *)
   else c_fail c || negb (final_matches (commit s) (aux s) (c_obs c) && obs_eqb (rev (out s)) (o_views (c_obs c))).
 
+(** the same comparison against the model of the code BEFORE the repair "cacheStore cell" (a running
+    precompile body keeps the multistore object it was started with, [run_stale]): used to tie that
+    variant to a tree without the repair; not part of the verdict *)
+Definition mismatch_stale (mx : Z) (c : case) : bool :=
+  let s := run_stale (PFrame (c_script c) false) (init {| repaired := true; maxc := mx; blocked := c_blocked c |} (store_of c)) in
+  if commit_fails s then negb (c_fail c)
+  else c_fail c || negb (final_matches (commit s) (aux s) (c_obs c) && obs_eqb (rev (out s)) (o_views (c_obs c))).
+
 (** scripts outside the reference's domain (see [wf]) are compared with the model only *)
 Definition in_domain (mx : Z) (c : case) : bool :=
   wf_body mx (c_script c) (r_init (c_blocked c) (store_of c)) &&
